@@ -116,7 +116,10 @@ KEYS = ["a", "b", "c", "d.x", "d.y", "e.f.g", "a", "b", "r",    # "r" is also a 
 CONSTS = [1, 2, "s", "t", True, 0, "", 3.5]
 FORMATS = ["{{a}}", "{{b}}_{{a}}", "p{{c}}", "{{d.x}}", "{{d.y}}{{a}}", "{{e.f.g}}", "{{d}}",
            "{{a}}{{a}}", "{{c}}-{{b}}"]
-DICTS = [["d", {"x": 5, "z": {"w": 1}}], ["e", {"f": {"g": 7}}], ["e.f", {"g": 8, "h": 9}]]
+DICTS = [["d", {"x": 5, "z": {"w": 1}}], ["e", {"f": {"g": 7}}], ["e.f", {"g": 8, "h": 9}],
+         # the same given as dict subclasses (an OrderedDict, a lena.context.Context)
+         ["d", {"__odict__": {"x": 5, "z": {"w": 1}}}], ["e", {"__context__": {"f": {"g": 7}}}],
+         ["d", {"x": 6, "z": {"__odict__": {"w": 2}}}]]
 MK_TEMPLATES = ["{{a}}", "f_{{b}}", "{{d.x}}", "{{a}}_{{c}}", "plain", "{{e.f.g}}", "{{r}}{{a}}",
                 "{{d}}"]
 WRITE_TEMPLATES = ["w_{{a}}", "out/{{b}}/{{a}}", "plain", "w{{d.x}}", "{{c}}", "{{e.f.g}}_{{a}}",
@@ -226,9 +229,9 @@ def _rand_leaf(rng, counter):
                 # names are strings (a number as output.prefix is a user error, not a case)
                 return ["set", key, rng.choice(["s", "t", "P_", ""])]
             return ["set", key, rng.choice(CONSTS)]
-        if y < 0.93:
+        if y < 0.90:
             return ["set", rng.choice(KEYS), rng.choice(FORMATS)]
-        if y < 0.97:
+        if y < 0.985:
             return ["set"] + copy.deepcopy(rng.choice(DICTS))
         return ["set", rng.choice(KEYS), "{{zz}}"]
     if x < 0.52:
@@ -423,7 +426,28 @@ def _cache_branches():
                     yield ["source", [["set", "d.x", 5], br, ["store", "sEnd"]], 1]
 
 
+def _subclass_values():
+    """A nested context given as a dict subclass (OrderedDict, lena.context.Context) before a
+    Split whose branches write below it and observe it."""
+    for marker in ("__odict__", "__context__"):
+        for deep in (0, 1):
+            val = {marker: {"x": 5, "z": {"w": 1}}} if not deep else \
+                {"x": 5, "z": {marker: {"w": 1}}}
+            wkey = "d.y" if not deep else "d.z.v"
+            writer = ["tuple", [["set", wkey, 2], ["store", "sA"], ["data", "inc"]]]
+            reader = ["tuple", [["store", "sB"], ["ucfs", "uB"], ["write", "wB", "w_{{d.x}}"],
+                                ["mkfn", "mB", {"filename": "f{{d.x}}"}, False]]]
+            other = ["seq", [["set", "d.x", 9], ["store", "sC"]]]
+            for brs in ([writer, reader, other], [reader, writer], [other, writer, reader]):
+                for kw in (None, {"copy_buf": False}):
+                    sp = ["split", copy.deepcopy(brs)] + ([kw] if kw else [])
+                    yield ["seq", [["set", "d", copy.deepcopy(val)], sp, ["store", "sEnd"]]]
+                    yield ["source", [["set", "a", 1], ["set", "d", copy.deepcopy(val)], sp], 2]
+
+
 def cases(tier, seed):
+    for tree in _subclass_values():
+        yield {"k": "tree", "tree": tree, "flow": FLOW, "vseed": 4, "nv": NVARIANTS[tier]}
     for tree in _cache_branches():
         yield {"k": "tree", "tree": tree, "flow": FLOW, "vseed": 3, "nv": NVARIANTS[tier]}
     for tree in _targeted():
@@ -445,6 +469,11 @@ def cases(tier, seed):
                 if rng.random() < 0.25:
                     break
                 tree = rand_tree(rng, maxlevels)
+        if "__odict__" in json.dumps(tree) or "__context__" in json.dumps(tree):
+            # a template field that renders a whole sub-dictionary would show the text of the
+            # subclass (OrderedDict(...)): such trees format scalar items only
+            tree = json.loads(json.dumps(tree).replace("{{d}}", "{{d.x}}")
+                              .replace("{{e.f}}", "{{e.f.g}}"))
         nflow = rng.randint(1, 3)
         # run-time values that are equal but differently written (1, 1.0, True)
         flow = [[j, ({"r": rng.choice([j, j, float(j), bool(j)]) if j < 2 else j}
@@ -465,6 +494,21 @@ def _flow(flow_r):
     return [(d, copy.deepcopy(c)) for d, c in flow_r]
 
 
+def _real_value(v):
+    """SetContext value of a recipe as a real object (see _c13_model.plain_value)."""
+    import collections
+    import lena.context
+    if isinstance(v, dict):
+        if len(v) == 1 and next(iter(v)) == "__odict__":
+            return collections.OrderedDict(
+                (k, _real_value(x)) for k, x in v["__odict__"].items())
+        if len(v) == 1 and next(iter(v)) == "__context__":
+            return lena.context.Context(
+                dict((k, _real_value(x)) for k, x in v["__context__"].items()))
+        return dict((k, _real_value(x)) for k, x in v.items())
+    return copy.deepcopy(v)
+
+
 def _build_item(it, root_dir, flow_r, b):
     import lena.core
     import lena.flow
@@ -472,7 +516,7 @@ def _build_item(it, root_dir, flow_r, b):
     import lena.output
     k = it[0]
     if k == "set":
-        el = lena.meta.SetContext(it[1], copy.deepcopy(it[2]))
+        el = lena.meta.SetContext(it[1], _real_value(it[2]))
         b.sets.append(el)
         return el
     if k == "store":
